@@ -82,7 +82,7 @@ PINS = {
     "expression.py": {
         "_hack_lex_table": "4a5be7641ed36519",
         "_ExtendedParser": "7ed5659428c66e45",
-        "parse": "ad68d7211e215248"
+        "parse": None
     }
 }
 
@@ -239,11 +239,22 @@ def backtick_alphabet(tree):
     return "".join(sorted(set(chars)))
 
 
+# dagrt.expression.parse, two recognised shapes of remove_backticks:
+#   "if not isinstance(expr, var): return expr"  -> SubstitutionMapper does not descend into subscripts
+#   "if not isinstance(expr, var): return None"  -> it does (fixes/C19_backticks_in_subscript.patch)
+PARSE_SHAPES = {"ad68d7211e215248": False, "6fc2299886dcdce3": True}
+
+
 def generate(repo):
     fs = files(repo)
     trees = {fn: _parse_file(path) for fn, path in fs.items()}
+    got_parse = _dump_hash(_lookup(trees["expression.py"], "parse"))
+    if got_parse not in PARSE_SHAPES:
+        raise ShapeError("expression.py: parse is in neither recognised shape (hash %s)" % got_parse)
     for fn in PINS:
         for name, pin in PINS[fn].items():
+            if fn == "expression.py" and name == "parse":
+                continue
             got = _dump_hash(_lookup(trees[fn], name))
             if pin is None or got != pin:
                 raise ShapeError("%s: %s differs from the shape the model mirrors (hash %s, expected %s)"
@@ -267,4 +278,6 @@ def generate(repo):
         out.append("Definition rhs_%s : nat := PA_%s." % (nm, rhs[len("_PREC_"):]))
     out.append("\n(* dagrt/expression.py _hack_lex_table: characters allowed between back-ticks *)")
     out.append("Definition backtick_alphabet : string := %s." % coq_string(backtick_alphabet(trees["expression.py"])))
+    out.append("\n(* dagrt/expression.py parse: does remove_backticks let the SubstitutionMapper descend into subscripts *)")
+    out.append("Definition unbt_descends_subscript : bool := %s." % ("true" if PARSE_SHAPES[got_parse] else "false"))
     return "\n".join(out) + "\n"
